@@ -17,6 +17,15 @@ func (p *Pool) lazyResend() {
 	go func() {
 		defer func() {
 			p.lazySendM.Unlock()
+
+			// An event may have been deferred after the last pop saw an empty list
+			// but before the unlock above: nobody else would flush it.
+			p.listM.Lock()
+			if !p.el.IsEmpty() && p.ctx.Err() == nil {
+				p.lazyResend()
+			}
+			p.listM.Unlock()
+
 			p.sendWg.Done()
 		}()
 
